@@ -1,5 +1,6 @@
 From Coq Require Extraction ExtrOcamlBasic.
 From OxiVerif Require Import Base.Conv IO.Dddmp IO.DddmpFile IO.DddmpTdd.
+From OxiVerif Require DD.Table DD.IsoCheck.
 Extraction Language OCaml.
 Extraction "model.ml" conv_anchor Dddmp.import_file Dddmp.import_bin Dddmp.import_ascii
   Dddmp.export_nodes Dddmp.encode_7bit Dddmp.decode_7bit Dddmp.escape Dddmp.unescape_all
@@ -10,4 +11,5 @@ Extraction "model.ml" conv_anchor Dddmp.import_file Dddmp.import_bin Dddmp.impor
   DddmpFile.print_header DddmpFile.header_of DddmpFile.utf8_lossy
   DddmpTdd.tdd_import_whole DddmpTdd.tdd_import_whole_guarded DddmpTdd.tdd_export_nodes DddmpTdd.tdd_export_whole
   DddmpTdd.tdd_anodes DddmpTdd.tdd_eval_root DddmpTdd.tdd_desc DddmpTdd.apply_setters DddmpTdd.binary_supported
-  DddmpTdd.export_ascii_mode DddmpTdd.tdd_arity.
+  DddmpTdd.export_ascii_mode DddmpTdd.tdd_arity
+  Table.mkSnap Table.mkNode Table.mkEdge IsoCheck.iso_core.
